@@ -88,8 +88,13 @@ theorem run_addr_indep_partial (c : Cfg) (α β : Addr) (hA : c.activitiesByAddr
       | some r => exact ih _
     | cons a t =>
       simp only
+      have hsc : selfCleanups c α (S := S) = selfCleanups c β := by
+        funext s l
+        have h1 : selfCleanupOne c α (S := S) = selfCleanupOne c β := by
+          funext s a; simp only [selfCleanupOne, cleanup_addr_indep c α β hA]
+        simp only [selfCleanups, h1]
       have : subroundWith c α (p n (a :: t)) s = subroundWith c β (p n (a :: t)) s := by
-        simp only [subroundWith, maestroPhase_addr_indep c α β hA hD]
+        simp only [subroundWith, maestroPhase_addr_indep c α β hA hD, hsc]
       rw [this]; exact ih _
 
 /-- the code as it is now (daemons ordered by pid): only the hypothesis on `activities_` is needed -/
